@@ -14,7 +14,7 @@ from vlib import Infra
 
 
 def tcfg(name, nblk=2400):
-    p = os.path.join(vlib.BUILD, name + ".cfg")
+    p = os.path.join(vlib.cfgdir(), name + ".cfg")
     with open(p, "w") as f:
         f.write("SPECIFICATION TSpec\nCONSTANTS\n  Threads = {1,2,3,4,5,6,7,8,9,10,11,12}\n  NBlk = %d\n" % nblk + "  Cap = 224\n  MaxOps = 0\n  NRes = 16\n  SharedScratch = FALSE\n  DrainOnExit = TRUE\n"
                 "INVARIANTS RaceFree HeapSoundT\nPOSTCONDITION Accepted\nCHECK_DEADLOCK FALSE\n")
